@@ -648,7 +648,7 @@ func (g *gen) shaped(d *opDesc) (*big.Int, *big.Int) {
 			if d.fam == "dec" {
 				bound = maxDec
 			}
-			b = new(big.Int).Mul(big.NewInt(int64(1+g.r.Intn(9))), pow10(num.BitLen()*3/10-1-g.r.Intn(3))) // short decimals below one
+			b = new(big.Int).Mul(big.NewInt(int64(1+g.r.Intn(9))), pow10(num.BitLen()*3/10-1-[]int{0, 0, 0, 0, 1, 2}[g.r.Intn(6)])) // short decimals below one (mostly tenths: an integer numerator with truncated quotient = bound exists with probability b)
 			if g.r.Intn(3) == 0 {
 				b = g.bits(1 + g.r.Intn(70))
 			}
@@ -658,6 +658,28 @@ func (g *gen) shaped(d *opDesc) (*big.Int, *big.Int) {
 			a = new(big.Int).Mul(bound, b)
 			a.Quo(a, num)
 			a.Add(a, big.NewInt([]int64{1, 1, 1, 0, 2, -1, 3}[g.r.Intn(7)]))
+			if g.r.Intn(2) == 0 {
+				// aimed: a numerator whose truncated quotient is EXACTLY the bound with a remainder (it exists only for
+				// some divisors: a = floor(bound*b/num) + 1 must stay below (bound+1)*b/num)
+				for try := 0; try < 40; try++ {
+					b2 := new(big.Int).Mul(big.NewInt(int64(1+g.r.Intn(9))), pow10(num.BitLen()*3/10-1-g.r.Intn(3)))
+					if try%2 == 1 {
+						b2 = g.bits(2 + g.r.Intn(100))
+					}
+					a2 := new(big.Int).Mul(bound, b2)
+					a2.Quo(a2, num)
+					a2.Add(a2, one)
+					q, r := new(big.Int).QuoRem(new(big.Int).Mul(a2, num), b2, new(big.Int))
+					if q.Cmp(bound) == 0 && r.Sign() != 0 {
+						a, b = a2, b2
+						if g.r.Intn(2) == 0 { // equal signs: the round-up goes beyond the bound
+							a.Neg(a)
+							b.Neg(b)
+						}
+						return clampTo(d.ta, a), clampTo(d.tb, b)
+					}
+				}
+			}
 		case 0: // exact quotient, or one unit off
 			m := g.bits(1 + g.r.Intn(60))
 			b = new(big.Int).Mul(m, num)
